@@ -102,7 +102,10 @@ def close_m_frac(a, b):
 
 
 def close_geo_frac(a, b):
-    return all(_c(x, y, 1e-10) for x, y in zip(a[:2], b[:2])) and close_m_frac(a[2:3], b[2:3])
+    """as close_geo, with the longitude compared modulo 360 degrees (a last-bit difference of a Y next to 0 on the
+    antimeridian turns -180 into 180: the same meridian) and the height as in close_m_frac"""
+    lon = _c(a[0], b[0], 1e-10) or (math.isfinite(a[0]) and math.isfinite(b[0]) and dlon(a[0], b[0]) <= 1e-10)
+    return lon and _c(a[1], b[1], 1e-10) and close_m_frac(a[2:3], b[2:3])
 
 
 def corr_close_geo(case):
